@@ -505,6 +505,25 @@ impl Check for C10 {
     }
     fn shrink(&self, case: &Case) -> Vec<Case> {
         match case.kind.as_str() {
+            "stream-oversized" => {
+                // a smaller announced body, larger pieces
+                let mut c = Vec::new();
+                let body = case.data["body"].as_u64().unwrap_or(0);
+                let chunk = case.data["chunk"].as_u64().unwrap_or(4096);
+                for b in [body / 2, body * 3 / 4] {
+                    if b > 300 * 1024 {
+                        let mut d = case.data.clone();
+                        d["body"] = json!(b);
+                        c.push(Case { kind: case.kind.clone(), data: d });
+                    }
+                }
+                if chunk < 16384 {
+                    let mut d = case.data.clone();
+                    d["chunk"] = json!(16384);
+                    c.push(Case { kind: case.kind.clone(), data: d });
+                }
+                c
+            }
             "grid" => {
                 // reduce to the single failing frame
                 let out = self.execute(case);
